@@ -10,6 +10,8 @@ from hypothesis import strategies as st
 _chars = st.characters(blacklist_categories=("Cs",), blacklist_characters="\x00")
 _raw_name = st.one_of(
     st.sampled_from(["", "a", "b", "ctl", "control", "A", " a", "a ", "é", "日本", "a\u0301", "x" * 9]),
+    # families of names that are prefixes of each other and of unequal width (a cast to a narrower fixed-width type merges them)
+    st.sampled_from(["MCF10A", "MCF10A-1", "MCF10A-2", "MCF1", "T47D", "T4", "ab", "abc", "abcdefgh", "abcdefgh-resistant"]),
     st.text(alphabet=_chars, max_size=5),
 )
 
